@@ -23,11 +23,21 @@ Three layers, core Lean only:
   `list()`, `set()`, `keys()`, `m.items()`, `l.filter`, `l.each`, `chunk`. They are one
   constructor `Op.bi` of the machine and read the same in both modes.
 
+* list iterators (`Obj.iter`, `Op.iNew/iNext/iRest`) and `for` loops whose body changes the
+  list they run over (`Op.lFor`, `Body`, `forLoop`): object/list_iter.go reads `iter.l.items`
+  on every step, so an iterator is a cursor into the LIVE list; `Impl.iterNext` is Go's
+  `pos`/`len` arithmetic, `Spec.iterNext` is `items[k]?`.
+
+* searching (`index`, `count`, `remove`, `in`, `filter`) goes through the model of
+  `object.Equals` (`valEq`), which compares numbers BY VALUE across int, float and byte.
+
 Abstractions (see checks/C16.json "trusted"): the capacity and backing-array identity of
 `List.items` are not modelled, because no operation of list.go hands out a sub-slice of it
 without copying (the correspondence check compares *every* live object after *every* step,
 so a change of that fact shows up as a mismatch); Go's hash maps are association lists
-observed only through sorted keys; floats are not modelled.
+observed only through sorted keys; floats are half-integers (`Val.flt t` = t/2) of small
+magnitude, for which `float64(int) == float` and float sums are exact; NaN, infinities,
+-0.0 and rounding are not modelled.
 -/
 namespace Risor.C16
 
@@ -38,8 +48,9 @@ inductive Val where
   | bool (b : Bool)
   | int (i : Int)
   | byte (n : Nat)
+  | flt (t : Int)          -- a float64 whose value is the half-integer t/2 (2.0 = flt 4, 1.5 = flt 3)
   | str (s : Str)
-  | ref (r : Nat)          -- a container object on the heap
+  | ref (r : Nat)          -- a container or iterator object on the heap
   deriving DecidableEq, Repr, Inhabited
 
 inductive Obj where
@@ -47,6 +58,7 @@ inductive Obj where
   | map (kvs : List (Str × Val))
   | set (items : List Val)
   | bytes (arr off len : Nat)    -- a Go slice header into byte array `arr`
+  | iter (l : Nat) (k : Nat)     -- object.ListIter over list object `l`; `k` items were yielded (Go: pos = k - 1)
   deriving DecidableEq, Repr, Inhabited
 
 structure Heap where
@@ -190,13 +202,16 @@ def lookupKV (k : Str) : List (Str × Val) → Option Val
   | (k', v) :: rest => if k' = k then some v else lookupKV k rest
 
 /-- hash key of an atom: (rank of the type name, IntValue, StrValue); `none` = unhashable.
-    Type names order as "bool" < "byte" < "int" < "nil" < "string". -/
+    Type names order as "bool" < "byte" < "float" < "int" < "nil" < "string". A float's key is
+    (FLOAT, FltValue) with IntValue 0 and StrValue ""; two float keys are equal / ordered as
+    their values are, so the half-integer numerator stands in the integer slot. -/
 def hashKey : Val → Option (Nat × Int × Str)
   | .bool b => some (0, if b then 1 else 0, [])
   | .byte n => some (1, n, [])
-  | .int i => some (2, i, [])
-  | .nil => some (3, 0, [])
-  | .str s => some (4, 0, s)
+  | .flt t => some (2, t, [])
+  | .int i => some (3, i, [])
+  | .nil => some (4, 0, [])
+  | .str s => some (5, 0, s)
   | .ref _ => none
 
 def keyEq (a b : Val) : Bool :=
@@ -221,12 +236,20 @@ def valEq (h : Heap) (fuel : Nat) (a b : Val) : Bool :=
   | .int x, .byte y => x == (y : Int)
   | .byte x, .int y => (x : Int) == y
   | .byte x, .byte y => x == y
+  -- Int/Byte/Float.Equals compare BY VALUE across the three numeric types
+  -- (`float64(i.value) == other.value`): 2 == 2.0 == byte(2)
+  | .int x, .flt t => 2 * x == t
+  | .flt t, .int y => t == 2 * y
+  | .byte x, .flt t => 2 * (x : Int) == t
+  | .flt t, .byte y => t == 2 * (y : Int)
+  | .flt s, .flt t => s == t
   | .str x, .str y => x == y
   | .ref r, other =>
     match fuel with
     | 0 => false
     | f+1 =>
       match h.get r, other with
+      | .iter _ _, .ref q => r == q          -- ListIter.Equals: identity
       | .bytes arr off len, .str s => bytesContent h arr off len == s
       | .list xs, .ref q =>
         match h.get q with
@@ -265,6 +288,11 @@ def cmp3 (h : Heap) (fuel : Nat) (a b : Val) : C3 :=
   | .int x, .byte y => three (x < (y : Int)) (x == (y : Int))
   | .byte x, .int y => three ((x : Int) < y) ((x : Int) == y)
   | .byte x, .byte y => three (x < y) (x == y)
+  | .int x, .flt t => three (2 * x < t) (2 * x == t)
+  | .flt t, .int y => three (t < 2 * y) (t == 2 * y)
+  | .byte x, .flt t => three (2 * (x : Int) < t) (2 * (x : Int) == t)
+  | .flt t, .byte y => three (t < 2 * (y : Int)) (t == 2 * (y : Int))
+  | .flt s, .flt t => three (s < t) (s == t)
   | .str x, .str y => three (strLt x y) (x == y)
   | .bool x, .bool y => three (!x && y) (x == y)
   | .nil, .nil => .ok 0
@@ -537,6 +565,26 @@ def strSlice (s : Str) (start stop : Option Val) : Except ErrC Str :=
   | .ok a b => .ok (encodeRunes ((rs.drop a).take (b - a)))
   | .err c => .error c
 
+/-! list iterators (object/list_iter.go): a cursor into the LIVE list -/
+
+/-- `ListIter.Next` as it is written, for an iterator that has yielded `k` items (Go's field
+    `pos` is `k - 1`, `-1` in a new iterator): `items := iter.l.items` -- the list's items as
+    they are NOW --; `if iter.pos >= int64(len(items)-1) { return nil, false }`;
+    `iter.pos++; return items[iter.pos], true` -/
+def iterNext (items : List Val) (k : Nat) : Option Val :=
+  if (k : Int) - 1 ≥ (items.length : Int) - 1 then none else items[k]?
+
+/-- the loop of `list(it)` (builtins.List): `for { val, ok := iter.Next(ctx); if !ok { break };
+    items = append(items, val) }`; returns the collected items and the final count -/
+def drainLoop : Nat → List Val → Nat → List Val → List Val × Nat
+  | 0, _, k, acc => (acc, k)
+  | f+1, xs, k, acc =>
+    match iterNext xs k with
+    | some v => drainLoop f xs (k + 1) (acc ++ [v])
+    | none => (acc, k)
+
+def drain (xs : List Val) (k : Nat) : List Val × Nat := drainLoop (xs.length + 1) xs k []
+
 end Impl
 
 /-! ### Spec: the reference container functions -/
@@ -588,6 +636,17 @@ def count (eq : Val → Val → Bool) (items : List Val) (v : Val) : Nat :=
 
 def contains (eq : Val → Val → Bool) (items : List Val) (v : Val) : Bool :=
   items.any (fun x => eq x v)
+
+/-- `l.index(v)`: the first position whose item equals `v` under the LANGUAGE's equality -/
+def indexOf (eq : Val → Val → Bool) (v : Val) (items : List Val) : Option Nat :=
+  items.findIdx? (fun x => eq v x)
+
+/-- an iterator that has yielded `k` items yields item number `k` of the list as it is now;
+    it is exhausted exactly when there is no such item -/
+def iterNext (items : List Val) (k : Nat) : Option Val := items[k]?
+
+/-- draining an iterator collects everything from the cursor on and leaves it at the end -/
+def drain (items : List Val) (k : Nat) : List Val × Nat := (items.drop k, max k items.length)
 
 def reverse (a : List Val) : List Val := a.reverse
 
@@ -659,6 +718,20 @@ inductive Pred where
   | nothing   -- func(x) { return false }
   deriving DecidableEq, Repr
 
+/-- what the body of a generated `for` loop over list `l` does to `l` itself, after recording
+    the (index,) item it was handed:
+      for i, x := range l { rec.append(i); rec.append(x); BODY }     (withIdx)
+      for x in l { rec.append(x); BODY }                             (without) -/
+inductive Body where
+  | none                     -- nothing
+  | grow (n : Nat)           -- if len(l) < n { l.append(x) }          (work list)
+  | popLast                  -- l.pop(-1)
+  | removeCur                -- l.remove(x)
+  | clear                    -- l.clear()
+  | setNext (v : Val)        -- if k + 1 < len(l) { l[k+1] = v }       (k = iterations so far)
+  | insertFront (n : Nat)    -- if len(l) < n { l.insert(0, x) }
+  deriving DecidableEq, Repr
+
 /-- builtins and methods that take a container, must leave it untouched and hand back an
     independent container (or nothing) -/
 inductive BOp where
@@ -700,6 +773,10 @@ inductive Op where
   | lKeys (r : Nat)
   | lMap (r : Nat) (cb : Impl.Cb)
   | lMapAcc (r : Nat) (acc : Nat)       -- a.map(func(i, x) { acc.append(i); return x })
+  | iNew (r : Nat)                      -- iter(l)
+  | iNext (it : Nat)                    -- it.next()
+  | iRest (it : Nat)                    -- list(it)
+  | lFor (r : Nat) (withIdx : Bool) (b : Body)   -- a for loop over l whose body changes l; see `Body`
   | mSet (r : Nat) (k v : Val)
   | mGet (r : Nat) (k : Val)
   | mGetDef (r : Nat) (k : Val) (d : Option Val)
@@ -775,10 +852,20 @@ def asSet (h : Heap) : Val → Option (List Val)
   | _ => none
 
 /-- `a + b` as `BinaryOp(Add)` computes it for the operand kinds the generator produces:
-    int+int (wrapping), string+string; anything else is a type error. Lists are excluded
-    here (the generator never adds lists in a compound assignment). -/
+    int+int (wrapping), the numeric tower (byte+byte stays a byte modulo 256, byte+int is an
+    int, anything with a float is a float; float sums are exact for the half-integers of small
+    magnitude the generator keeps them to), string+string; anything else is a type error.
+    Lists are excluded here (the generator never adds lists in a compound assignment). -/
 def addVal : Val → Val → Option Val
   | .int a, .int b => some (.int (wrap64 (a + b)))
+  | .int a, .byte b => some (.int (wrap64 (a + b)))
+  | .byte a, .int b => some (.int (wrap64 (a + b)))
+  | .byte a, .byte b => some (.byte ((a + b) % 256))
+  | .int a, .flt t => some (.flt (2 * a + t))
+  | .flt t, .int b => some (.flt (t + 2 * b))
+  | .byte a, .flt t => some (.flt (2 * (a : Int) + t))
+  | .flt t, .byte b => some (.flt (t + 2 * (b : Int)))
+  | .flt s, .flt t => some (.flt (s + t))
   | .str a, .str b => some (.str (a ++ b))
   | _, _ => none
 
@@ -813,6 +900,7 @@ def iterItems (h : Heap) (r : Nat) : Option (List Val) :=
   | .map kvs => some (mapKeys kvs)
   | .set xs => some (sortedItems xs)
   | .bytes _ _ _ => none
+  | .iter _ _ => none
 
 /-- what `sorted(x[, f])` sorts: `Value()` of a list, the keys of a map, the members of a
     set, the bytes of a byte_slice as ints -/
@@ -822,6 +910,7 @@ def sortItems (h : Heap) (r : Nat) : List Val :=
   | .map kvs => mapKeys kvs
   | .set xs => sortedItems xs
   | .bytes a o l => (bytesContent h a o l).map (fun (b : Nat) => Val.int (b : Int))
+  | .iter _ _ => []
 
 /-- one call of a script comparison function: `a < b` etc. through `object.Compare`
     (a type error raises), or a constant -/
@@ -891,6 +980,7 @@ def stepB (h : Heap) (b : BOp) : Heap × Res :=
     | .map kvs => newList h (mapKeys kvs)
     | .set xs => newList h (sortedItems xs)
     | .bytes _ _ _ => (h, .err .type)
+    | .iter _ _ => (h, .err .type)
   | .items r =>
     match h.get r with
     | .map kvs =>
@@ -920,6 +1010,57 @@ def stepB (h : Heap) (b : BOp) : Heap × Res :=
         (allocs h (cs.map Obj.list ++ [.list (refsFrom h.objs.length cs.length)]),
           .val (.ref (h.objs.length + cs.length)))
     | _, _ => (h, .err .type)
+
+/-! ### iteration over a list that changes meanwhile -/
+
+/-- the length up to which a loop body lets its list grow -/
+def Body.bound : Body → Nat
+  | .grow n => n
+  | .insertFront n => n
+  | _ => 0
+
+/-- one step of a list iterator in the reading `m` of the machine -/
+def nextOf (m : Mode) (xs : List Val) (k : Nat) : Option Val :=
+  match m with
+  | .impl => Impl.iterNext xs k
+  | .spec => Spec.iterNext xs k
+
+/-- what one run of loop body `b` makes of the iterated list `xs`; `k` = iterations before this
+    one, `x` = the item the iterator handed to it -/
+def bodyList (m : Mode) (eq : Val → Val → Bool) (b : Body) (xs : List Val) (k : Nat) (x : Val) : List Val :=
+  match b with
+  | .none => xs
+  | .grow n => if xs.length < n then xs ++ [x] else xs
+  | .popLast =>
+    match (match m with | .impl => Impl.pop xs (-1) | .spec => Spec.pop xs (-1)) with
+    | some (_, ys) => ys
+    | none => xs
+  | .removeCur => (match m with | .impl => Impl.remove eq xs x | .spec => Spec.remove eq xs x)
+  | .clear => []
+  | .setNext v =>
+    if k + 1 < xs.length then
+      match (match m with | .impl => Impl.setItem xs ((k : Int) + 1) v | .spec => Spec.setItem xs ((k : Int) + 1) v) with
+      | some ys => ys
+      | none => xs
+    else xs
+  | .insertFront n =>
+    if xs.length < n then (match m with | .impl => Impl.insert xs 0 x | .spec => Spec.insert xs 0 x) else xs
+
+/-- the `for` loop of the VM (`GetIter`, then `ForIter` before every round: `iter.Next`, the
+    names are bound from `iter.Entry()`, the body runs): every round reads the list object
+    `r` AS IT IS THEN, records `(k, x)` (or `x`) and lets the body change the list. `fuel`
+    bounds the number of rounds. Returns the heap and the record. -/
+def forLoop (m : Mode) (r : Nat) (w : Bool) (b : Body) : Nat → Heap → Nat → List Val → Heap × List Val
+  | 0, h, _, acc => (h, acc)
+  | f+1, h, k, acc =>
+    match h.get r with
+    | .list xs =>
+      match nextOf m xs k with
+      | none => (h, acc)
+      | some x =>
+        forLoop m r w b f (h.put r (.list (bodyList m (heq h) b xs k x))) (k + 1)
+          (acc ++ (if w then [.int k, x] else [x]))
+    | _ => (h, acc)
 
 /-- one operation on the heap, as the code performs it (`.impl`) or as the reference
     containers do (`.spec`). Target handles of the wrong kind give a type error. -/
@@ -1008,7 +1149,7 @@ def step (m : Mode) (h : Heap) (op : Op) : Heap × Res :=
   | .lIndex r v =>
     match h.get r with
     | .list xs =>
-      match Impl.indexOf (heq h) v xs with
+      match (match m with | .impl => Impl.indexOf (heq h) v xs | .spec => Spec.indexOf (heq h) v xs) with
       | some k => (h, .val (.int k))
       | none => (h, .val (.int (-1)))
     | _ => (h, .err .type)
@@ -1065,6 +1206,40 @@ def step (m : Mode) (h : Heap) (op : Op) : Heap × Res :=
       -- the result list is built from the items as they were when the loop started
       newList h1 xs
     | _, _ => (h, .err .type)
+  | .iNew r =>
+    -- `iter(l)` = `NewListIter(l)`: a new cursor object that refers to the list object
+    match h.get r with
+    | .list _ =>
+      let (h', q) := h.alloc (.iter r 0)
+      (h', .val (.ref q))
+    | _ => (h, .err .type)
+  | .iNext it =>
+    -- `it.next()`: the item at the cursor in the list AS IT IS NOW, or nil when there is none
+    match h.get it with
+    | .iter l k =>
+      match h.get l with
+      | .list xs =>
+        match nextOf m xs k with
+        | some v => (h.put it (.iter l (k + 1)), .val v)
+        | none => (h, .val .nil)
+      | _ => (h, .err .type)
+    | _ => (h, .err .type)
+  | .iRest it =>
+    -- `list(it)`: everything from the cursor on, as a new list; the cursor ends at the end
+    match h.get it with
+    | .iter l k =>
+      match h.get l with
+      | .list xs =>
+        let d := (match m with | .impl => Impl.drain xs k | .spec => Spec.drain xs k)
+        newList (h.put it (.iter l d.2)) d.1
+      | _ => (h, .err .type)
+    | _ => (h, .err .type)
+  | .lFor r w b =>
+    match h.get r with
+    | .list xs =>
+      let res := forLoop m r w b (max xs.length b.bound + 1) h 0 []
+      newList res.1 res.2
+    | _ => (h, .err .type)
   | .mSet r k v =>
     match h.get r, k with
     | .map kvs, .str s => (h.put r (.map (Impl.mset kvs s v)), .unit)
@@ -1279,6 +1454,7 @@ def readOnly : Op → Bool
 /-- read-only operations that build a NEW container from their operand -/
 def producesNew : Op → Bool
   | .lSlice .. | .lCopy .. | .lConcat .. | .lSorted .. | .lReversed .. | .lKeys .. | .lMap .. => true
+  | .iNew .. | .iRest .. | .lFor .. => true
   | .mCopy .. | .mKeys .. | .mValues .. => true
   | .sUnion .. | .sInter .. => true
   | .bSlice .. | .bClone .. => true
@@ -1292,6 +1468,9 @@ def target : Op → Option Nat
   | .lSet r .. | .lAddAssign r .. | .lAppend r .. | .lInsert r .. | .lPop r .. | .lRemove r ..
   | .lExtend r .. | .lReverse r | .lSort r | .lClear r | .lDel r .. => some r
   | .lMapAcc _ acc => some acc
+  | .iNext it | .iRest it => some it          -- only the cursor moves, never the list
+  | .lFor _ _ .none => none
+  | .lFor r _ _ => some r                     -- the loop body changes the list it iterates
   | .mSet r .. | .mPop r .. | .mDel r .. | .mUpdate r .. | .mSetDefault r .. | .mClear r | .mAddAssign r .. => some r
   | .sAdd r .. | .sRemove r .. | .sDel r .. | .sClear r => some r
   | .bSet r .. => some r
